@@ -167,7 +167,11 @@ func discharge(rs []*FnResult, par int, quick, full time.Duration) {
 	// queries must be built sequentially (term table is not thread-safe)
 	queries := make([]string, len(jobs))
 	for i, j := range jobs {
-		as := relevant(j.r.Assumes[:j.o.NAssume], []*Term{j.o.PC, j.o.Cond})
+		base := j.r.Assumes
+		if j.o.caseAssumes != nil {
+			base = j.o.caseAssumes
+		}
+		as := relevant(base[:j.o.NAssume], []*Term{j.o.PC, j.o.Cond})
 		as = append(as, j.o.PC)
 		var gv []*Term
 		for _, in := range j.o.Inputs {
